@@ -38,6 +38,10 @@ func main() {
 	case "runcase":
 		// debugging: vcheck runcase <ID> <kind> <data.json|->  runs one case in-process
 		p := core.Get(os.Args[2])
+		if p == nil {
+			fmt.Println("property not in this binary; use vcheck-ov")
+			os.Exit(2)
+		}
 		b, _ := os.ReadFile(os.Args[4])
 		if wi, ok := p.(core.WorkerIniter); ok {
 			wi.InitWorker()
